@@ -281,26 +281,17 @@ class MemorySource(DataSource):
             (STIX object): STIX object that has the supplied ID.
 
         """
-        stix_obj = None
+        # The newest of the versions which pass the filters (as a query for
+        # the ID would answer, and as the filesystem source does) -- not the
+        # newest version, if it passes.
+        versions = self.all_versions(stix_id, _composite_filters)
+        if not versions:
+            return None
 
-        mapped_value = self._data.get(stix_id)
-        if mapped_value:
-            if isinstance(mapped_value, _ObjectFamily):
-                stix_obj = mapped_value.latest_version
-            else:
-                stix_obj = mapped_value
+        if len(versions) == 1:
+            return versions[0]
 
-        if stix_obj:
-            all_filters = list(
-                itertools.chain(
-                    _composite_filters or [],
-                    self.filters,
-                ),
-            )
-
-            stix_obj = next(apply_common_filters([stix_obj], all_filters), None)
-
-        return stix_obj
+        return max(versions, key=lambda obj: parse_into_datetime(obj["modified"]))
 
     def all_versions(self, stix_id, _composite_filters=None):
         """Retrieve STIX objects from in-memory dict via STIX ID, all versions
